@@ -332,6 +332,58 @@ def rule_strict_numbers(ctx: Ctx) -> RuleResult:
     return rr
 
 
+def rule_midpoint(ctx: Ctx) -> RuleResult:
+    """_value_lookup_table() turns the palette values v0 < v1 < ... into a nearest-entry table: the first level
+    mapped to the upper neighbour of (a, b) is the boundary m.  Nearest means m - a >= b - m and (m - 1) - a <= b -
+    (m - 1), whose integer solution is m = (a + b + 1) // 2.  Anything that rounds a real midpoint - round(),
+    int(x + 0.5) on a float, true division - can land one level low (round() sends .5 to the even neighbour), and
+    that level then maps to the farther entry.  The boundary has to be that integer expression."""
+    from ..rules.util import linear
+
+    p = ctx.p
+    rr = RuleResult("TAB", "C18.12", "the boundaries of the nearest-entry lookup tables are the integer midpoints (a + b + 1) // 2 of consecutive palette values", floor=1)
+    fi = p.func(f"{COMMON}._value_lookup_table")
+    vals = fi.params[0]
+    cands = []
+    for n in fi.own_nodes():
+        if isinstance(n, (ast.BinOp, ast.Call)):
+            names = {ast.unparse(x) for x in ast.walk(n) if isinstance(x, ast.Subscript) and isinstance(x.value, ast.Name) and x.value.id == vals}
+            if len(names) >= 2:
+                cands.append(n)
+    # the arithmetic expression around the two values: start from the smallest candidate and climb while the parent
+    # is still scalar arithmetic (a BinOp whose other operand is not a list / comprehension, or round()/int()/float())
+    parent = {}
+    for n in ast.walk(fi.node):
+        for ch in ast.iter_child_nodes(n):
+            parent[id(ch)] = n
+    has_inner = {id(c) for c in cands if any(x is not c and x in cands for x in ast.walk(c))}
+    tops = []
+    for c in [c for c in cands if id(c) not in has_inner]:
+        e = c
+        while True:
+            up = parent.get(id(e))
+            scalar_binop = isinstance(up, ast.BinOp) and not any(isinstance(x, (ast.List, ast.ListComp, ast.Tuple)) for x in (up.left, up.right))
+            scalar_call = isinstance(up, ast.Call) and isinstance(up.func, ast.Name) and up.func.id in ("round", "int", "float") and e in up.args
+            if scalar_binop or scalar_call:
+                e = up
+            else:
+                break
+        tops.append(e)
+    if not tops:
+        raise AnalysisError("_value_lookup_table: the expression combining two consecutive values was not found")
+    for e in tops:
+        ok = False
+        if isinstance(e, ast.BinOp) and isinstance(e.op, ast.FloorDiv) and isinstance(e.right, ast.Constant) and e.right.value == 2:
+            L = linear(e.left)
+            if L is not None:
+                terms = {k: v for k, v in L.items() if k}
+                ok = len(terms) == 2 and all(v == 1 for v in terms.values()) and L.get("", 0) == 1
+        rr.inst(norm(e, 60), True, {"boundary": norm(e, 70), "integer_midpoint_rounded_up": ok})
+        if not ok:
+            rr.add(finding("TAB", fi, e, f"the boundary between two consecutive palette values is `{norm(e, 70)}`, not the integer midpoint (a + b + 1) // 2: a rounded real midpoint can fall one level low (round() sends x.5 to the even neighbour), and that level - e.g. gray 0xf6 between 0xee and 0xff - is then mapped to the farther palette entry", construct=f"lookup boundary {norm(e, 60)}"))
+    return rr
+
+
 def run(ctx: Ctx):
     p = ctx.p
     c = p.cls(f"{COMMON}.AttrSpec")
@@ -364,6 +416,7 @@ def run(ctx: Ctx):
         rule_per_side_decode(ctx),
         rule_strict_numbers(ctx),
     ]
+    out.append(rule_midpoint(ctx))
     return out
 
 
@@ -371,6 +424,9 @@ from ..mutants import Mut  # noqa: E402
 
 _C = "urwid/display/common.py"
 MUTANTS = [
+    Mut("lookup-midpoint-bankers-rounding", "urwid/display/common.py", "_value_lookup_table", "(values[i] + values[i + 1] + 1) // 2", "round((values[i] + values[i + 1]) / 2)", "TAB|display.common._value_lookup_table"),
+    Mut("lookup-midpoint-floor", "urwid/display/common.py", "_value_lookup_table", "(values[i] + values[i + 1] + 1) // 2", "(values[i] + values[i + 1]) // 2", "TAB|display.common._value_lookup_table"),
+    Mut("twin-lookup-midpoint-reordered", "urwid/display/common.py", "_value_lookup_table", "(values[i] + values[i + 1] + 1) // 2", "(1 + values[i + 1] + values[i]) // 2", twin=True),
     Mut("hash-includes-dynamic-class", "urwid/display/common.py", "AttrSpec.__hash__", "return hash((AttrSpec, self.__value))", "return hash((self.__class__, self.__value))", "SIB|display.common.AttrSpec.__hash__"),
     Mut("high-colour-number-by-int", "urwid/display/common.py", "_parse_color_256", "            num = _int_digits(desc[1:], 10)", "            num = int(desc[1:], 10)", "TAINT|display.common._parse_color_256"),
     Mut("fold-any-seven-characters", "urwid/display/common.py", "_parse_color_88", "    if len(desc) == 7 and desc.startswith(\"#\"):", "    if len(desc) == 7:", "TAINT|display.common._parse_color_88"),
